@@ -55,6 +55,13 @@ func registerSched() {
 		Assume: []string{"terminating, same-cycle-evicted and merely nominated pods are don't-care for inter-pod terms (either reading accepted)", "only Ready/unschedulable node conditions are demanded",
 			"topology: labels are demanded for the required level and coarser levels only; already active pods pin the domain only if they lie in one domain"}})
 	run.Register(&SchedCheck{Id: "C06", Profile: "victims", Quick: 1000, Thorough: 8000,
+		Mutate: func(c *spec.Case, seed int64, idx int) { oracle.ResetC06() },
+		Gen: func(seed int64, idx int, tier string) *spec.Case {
+			if idx%3 == 1 { // a third of the cases: department-contention clusters with min-runtimes and workload controllers
+				return gen.ContentionWith(seed, idx, tier, gen.ContentionOpts{MinRuntime: true, EarlyRecreate: true})
+			}
+			return nil
+		},
 		Oracle: func(m *oracle.Model, res *sched.CycleResult, after *spec.Objects, c *spec.Case, st *oracle.Stats) []run.Violation {
 			return oracle.CheckC06(m, res.Events, res.Cycle, time.Now(), st)
 		},
